@@ -262,6 +262,9 @@ def run_replay(cases_path, name="replay", jobs=1, timeout=3600):
     os.makedirs(wdir)
     out = ReplayResult()
     out.crashes = []
+    out.n_obs = 0
+    out.obs_path = os.path.join(wdir, "events.ndjson")
+    obs_fh = open(out.obs_path, "w")
     t0 = time.time()
     start = 0
     summaries = []
@@ -285,6 +288,9 @@ def run_replay(cases_path, name="replay", jobs=1, timeout=3600):
                         continue      # line cut by the crash
                     if "summary" in o:
                         summaries.append(o["summary"])
+                    elif "obs" in o:
+                        obs_fh.write(json.dumps(o["obs"]) + "\n")
+                        out.n_obs += 1
                     else:
                         out.fails.append(o)
         if r.returncode == 0:
@@ -307,6 +313,7 @@ def run_replay(cases_path, name="replay", jobs=1, timeout=3600):
         if idx < 0 or rounds > 200:
             break
         start = idx + 1
+    obs_fh.close()
     # merge summaries
     merged = {"checks": 0, "failed_cases": 0, "kinds": {}}
     for s in summaries:
@@ -322,6 +329,43 @@ def run_replay(cases_path, name="replay", jobs=1, timeout=3600):
         name, out.summary.get("checks", 0), len(out.fails), out.wall,
         "  %d CRASH(ES)" % len(out.crashes) if out.crashes else ""))
     return out
+
+
+def run_trace(events_path, name="trace", spec="trace/Trace_Events", workers=8, timeout=7200, select=None):
+    """Direction B: validate events recorded from the real code with a TLC trace specification.
+    Returns (n_events, [non-conforming events], TlcResult)."""
+    wdir = os.path.join(WORK, "trace", name)
+    shutil.rmtree(wdir, ignore_errors=True)
+    os.makedirs(wdir)
+    sel = os.path.join(wdir, "events.ndjson")
+    n = 0
+    with open(events_path) as fh, open(sel, "w") as out:
+        for line in fh:
+            if not line.strip():
+                continue
+            if select is not None and not select(json.loads(line)):
+                continue
+            out.write(line)
+            n += 1
+    if n == 0:
+        return 0, [], None
+    r = run_tlc(spec, name="trace-" + name, workers=workers, timeout=timeout, coverage=False,
+                env_extra={"TRACE": sel})
+    bad = []
+    with open(r.cases_path) as fh:
+        for line in fh:
+            o = json.loads(line)
+            if "nonconf" in o:
+                bad.append(o)
+    if r.error:
+        raise ToolError("trace specification failed on %s: %s" % (name, r.error))
+    # every line consumed: 1 initial state + K chain heads + one state per event
+    expect = 1 + 16 + n
+    if r.distinct != expect:
+        raise ToolError("trace validation of %s consumed %d states, expected %d (events not all consumed)" % (
+            name, r.distinct, expect))
+    log("trace  %-26s %9d events   %6d non-conforming" % (name, n, len(bad)))
+    return n, bad, r
 
 
 # --------------------------------------------------------------------------------------
@@ -470,6 +514,16 @@ class Check:
                 lst.sort(key=lambda cm: len(cm[1]))
                 out.append(lst[0])
         return out
+
+    def add_trace(self, n, bad, r, label):
+        if r is not None:
+            self.add_tlc(r, label)
+        self.traces += n
+        self.extra.setdefault("trace_validation", []).append({"label": label, "events": n, "non_conforming": len(bad)})
+        for b in bad:
+            ev = b["event"]
+            self.judge(ev, [{"props": [self.pid], "what": "trace.nonconforming." + str(ev.get("ev")),
+                             "event_line": b["nonconf"]}])
 
     def judge(self, case, fails):
         """Split the failed comparisons of one case into known findings and violations."""
